@@ -6,7 +6,7 @@ use crate::framework::*;
 use crate::gen::*;
 use copia::async_sync::AsyncCopiaSync;
 use copia::{Codec, CopiaSync, Delta, DeltaOp, FrameHeader, Message, Signature, StrongHash, Sync as _};
-use copia_simworld::kernel::{catch_quiet, ExitKind, RunCfg, World};
+use copia_simworld::kernel::{catch_quiet, ExitKind, Fault, OpKind, ProcSel, RunCfg, World};
 use copia_simworld::rng::Rng;
 use copia_simworld::streams::{block_on, IoPlan, SimRead, SimWrite};
 use serde::{Deserialize, Serialize};
@@ -328,8 +328,17 @@ impl C05 {
         cfg.seed = sc.seed;
         cfg.short_read_pct = *r.pick(&[0u32, 30]);
         cfg.record_trace = false;
+        // a third of the CLI runs: the OUTPUT misbehaves — one write to it fails (EIO / ENOSPC) or
+        // is short. Success may still only be reported for bytes that hash to the checksum.
+        match r.below(6) {
+            0 => cfg.faults.push(Fault::FailOp { target: ProcSel::Role("copia".into()), nth: 1 + r.below(4) as u32, kind: OpKind::Write, errno: *r.pick(&[copia_simworld::fs::EIO, copia_simworld::fs::ENOSPC]) }),
+            1 => cfg.faults.push(Fault::ShortWrite { target: ProcSel::Role("copia".into()), nth: 1 + r.below(4) as u32 }),
+            _ => {}
+        }
         let out = run_one(w, cfg, "copia", "local", &sv(&["copia", "patch", "/w/basis", "/w/d.delta", "-o", "/w/out"]), env_of(&[("HOME", "/home/u")]));
         rep.steps = out.stats.steps;
+        rep.fault("output_write_error", out.stats.injected_errors);
+        rep.fault("output_short_write", out.stats.short_writes);
         let p = &out.procs[0];
         if p.alloc_peak > AS_LIMIT {
             rep.probe("allocation_request_above_2GiB", 1);
